@@ -618,7 +618,7 @@ func (fr *Frame) frameObligations(final *State, reach Term) {
 			continue
 		}
 		r := vc.sc.Decl("frame_r", SInt)
-		conds := []Term{app(SBool, "<", app(SInt, "refroot", r), fr.entry.Alloc), app(SBool, ">=", r, intLit64(0))}
+		conds := []Term{app(SBool, "<", app(SInt, "refroot", r), fr.entry.Alloc), app(SBool, ">", r, intLit64(0))} // ref 0 is nil: not a location (mem of a nil slice denotes nothing)
 		if m != nil {
 			for _, ref := range m.refs {
 				conds = append(conds, mkNot(mkEq(r, ref)))
